@@ -2620,9 +2620,11 @@ class SlicedMemoryIO(object):
 
         # Determine how far to read, then read nothing beyond that point.
         if self.address + n_bytes > self._end_address:
-            new_n_bytes = self._end_address - self.address
-            warnings.warn("read truncated from {} to {} bytes".format(
-                n_bytes, new_n_bytes), TruncationWarning, stacklevel=3)
+            # NB: The cursor may lie beyond the end of the region
+            new_n_bytes = max(0, self._end_address - self.address)
+            if new_n_bytes < n_bytes:
+                warnings.warn("read truncated from {} to {} bytes".format(
+                    n_bytes, new_n_bytes), TruncationWarning, stacklevel=3)
             n_bytes = new_n_bytes
 
         # Nothing can be read from before the start of the region either
@@ -2673,8 +2675,9 @@ class SlicedMemoryIO(object):
             # NB: The cursor may lie beyond the end of the region
             n_bytes = max(0, self._end_address - self.address)
 
-            warnings.warn("write truncated from {} to {} bytes".format(
-                len(bytes), n_bytes), TruncationWarning, stacklevel=3)
+            if n_bytes < len(bytes):
+                warnings.warn("write truncated from {} to {} bytes".format(
+                    len(bytes), n_bytes), TruncationWarning, stacklevel=3)
             bytes = bytes[:n_bytes]
 
         if len(bytes) == 0:
